@@ -378,7 +378,7 @@ Proof.
   intros Hc Hp Hor. unfold trailers_into.
   destruct (forallb _ tr) eqn:Eall.
   - apply copy_header_nohit; [exact Hc|]. destruct Hor as [Hd|Hn]; [|exact Hn].
-    eapply all_in_nohit; [exact Eall|]. apply mem_filter_out. exact Hd.
+    eapply all_in_nohit; [exact Eall|]. unfold ann_after. apply mem_filter_out. exact Hd.
   - apply (prefixed_nohit k tr h Hp).
 Qed.
 
@@ -432,14 +432,14 @@ Proof.
   destruct replace.
   - rewrite hget_merge_replace.
     destruct (trailers_into_nohit k td (u_announced u) tr
-                (announce (u_announced u) (copy_header [] (fold_left (fun h d => hdel d h) deleted (remove_hop hval_str uh0)))))
+                (announce (ann_after td (u_announced u)) (copy_header [] (fold_left (fun h d => hdel d h) deleted (remove_hop hval_str uh0)))))
       as [_ T2]; [apply Ht2; constructor | exact Hkp | |].
     + destruct (Htr eq_refl) as [Hd|Hl]; [left; exact Hd | right]. rewrite Ht1, Hl. reflexivity.
-    + rewrite T2. destruct (announce_nohit k (u_announced u)
+    + rewrite T2. destruct (announce_nohit k (ann_after td (u_announced u))
                   (copy_header [] (fold_left (fun h d => hdel d h) deleted (remove_hop hval_str uh0))) Hkt) as [_ A2].
       rewrite A2. destruct (copy_header_nohit k [] _ Hc Hn) as [_ C2]. rewrite C2. reflexivity.
   - rewrite (H1xx eq_refl).
-    destruct (announce_nohit k (u_announced u)
+    destruct (announce_nohit k (ann_after td (u_announced u))
                (copy_header outer (fold_left (fun h d => hdel d h) deleted (remove_hop hval_str uh0))) Hkt) as [A1 _].
     rewrite A1. apply (copy_header_nohit k outer _ Hc Hn).
 Qed.
